@@ -93,6 +93,53 @@ def desugar(loc, relfile, fn_paths, rules):
     return new_loc, records
 
 
+def auto_inline(loc, relfile, fn_paths, known_names):
+    """D9 (automatic): a call `self.h(args)` to a method `h` that is neither under contract in this unit nor part
+    of the prelude is replaced by the body of `h` when `h` is a single-expression `&self` method of the same file
+    (parameters substituted textually).  This keeps a refactoring that merely extracts a helper decidable: the
+    caller is verified against the helper's real text.  Returns (new_loc, records) or (loc, []) if nothing to do."""
+    src = loc["src"]
+    rewrites, records = [], []
+    helpers = {}
+    for it in loc["items"]:
+        if it.get("kind") == "method" and "single_expr" in it and not it["path"].startswith("mod tests::"):
+            helpers.setdefault(it["name"], []).append(it)
+    for fp in fn_paths:
+        for it in loc["by_path"].get(fp, []):
+            for c in it.get("self_calls", []):
+                name = c["name"]
+                if name in known_names or name not in helpers or len(helpers[name]) != 1:
+                    continue
+                h = helpers[name][0]
+                if len(h["params"]) != len(c["args"]) or h["path"] == fp:
+                    continue
+                body = src[h["single_expr"][0]:h["single_expr"][1]]
+                for pname, (a, b) in zip(h["params"], c["args"]):
+                    body = re.sub(r"\b" + re.escape(pname) + r"\b", "(" + src[a:b].replace("\\", "\\\\") + ")", body)
+                new = "(" + body + ")"
+                rewrites.append((c["call"][0], c["call"][1], new))
+                records.append({"fn": fp, "rule": "D9 self.h(args) => (body of the single-expression helper h with its parameters substituted)",
+                                "helper": h["path"], "original": src[c["call"][0]:c["call"][1]], "rewritten": new})
+    if not rewrites:
+        return loc, []
+    rewrites.sort(reverse=True)
+    last = len(src) + 1
+    for a, b, new in rewrites:
+        if b > last:
+            raise Undecided(f"{relfile}: nested helper calls cannot be inlined")
+        src = src[:a] + new + src[b:]
+        last = a
+    d = scratch("vd9")
+    try:
+        tmp = os.path.join(d, os.path.basename(relfile))
+        with open(tmp, "w", encoding="utf-8") as f:
+            f.write(src)
+        new_loc = _locate_path(tmp, relfile + " (helpers inlined)")
+    finally:
+        rmtree(d)
+    return new_loc, records
+
+
 def _locate_path(path, relfile):
     src_bytes = open(path, "rb").read()
     key = (path, sha(src_bytes))
@@ -126,6 +173,11 @@ def _locate_path(path, relfile):
                 if k in ("start", "end", "item_start", "sig_start", "sig_end", "ret", "where", "body_open",
                          "body_close", "loops", "container"):
                     it[k] = conv(it[k])
+            if "single_expr" in it:
+                it["single_expr"] = conv(it["single_expr"])
+            for c in it.get("self_calls", []):
+                c["call"] = conv(c["call"])
+                c["args"] = conv(c["args"])
             for v in it.get("vd", []):
                 for k in list(v.keys()):
                     if k not in ("rule", "is_block"):
@@ -367,6 +419,13 @@ class Unit:
         notes = []
         deviations = []
         desugared = []
+        prelude_text = read(os.path.join(self.dir, "prelude.rs"))
+        for sp in re.findall(r"//@@SPEC\s+(\S+)@@", prelude_text):
+            if os.path.exists(os.path.join(SPEC, sp)):
+                prelude_text += read(os.path.join(SPEC, sp))
+        known_names = set(re.findall(r"\bfn\s+([A-Za-z_0-9]+)", prelude_text))
+        for it0 in self.cfg.get("item", []):
+            known_names |= set(it0.get("methods", []))
         for item in self.cfg.get("item", []):
             relfile = item["file"]
             loc = locate(relfile, self.root)
@@ -374,6 +433,10 @@ class Unit:
             if item.get("desugar"):
                 targets = ([item["path"] + "::" + m for m in item["methods"]] if "methods" in item else [item["path"]])
                 loc, recs = desugar(loc, relfile, targets, item["desugar"])
+                desugared += recs
+            if "methods" in item and item.get("kind") not in ("macro", "raw"):
+                targets = [item["path"] + "::" + m for m in item["methods"]]
+                loc, recs = auto_inline(loc, relfile, targets, known_names)
                 desugared += recs
             if "methods" in item:
                 header_mode = item.get("header", "repo")
